@@ -81,7 +81,7 @@ set_option maxRecDepth 20000 in
 /-- the same too-long name twice, by two threads: nothing fired, the counter went on, the ordinary attachment after
     them is number 3 -/
 example : (match runCalls St.init [(1, .op (.startTest ["s", "t"] default)), (1, .op (.setStep "a")),
-      (1, .attachFile (String.ofList (List.replicate 300 'w')) "d" false), (2, .attachFile (String.ofList (List.replicate 300 'w')) "d" false),
+      (1, .attachFile (String.ofList (List.replicate 251 'w')) "d" false), (2, .attachFile (String.ofList (List.replicate 251 'w')) "d" false),
       (1, .attachFile "f.txt" "d" false)] with
     | .ok s => (s.attachCount, s.fired.length, s.prepared.length) | .error _ => (0, 0, 0)) = (3, 3, 0) := by decide
 
